@@ -306,19 +306,19 @@ Proof.
 Qed.
 
 (* ---------- CanvasCache.cleanup ---------- *)
-Lemma cleanup_absent c r : alookup (refs c) r = None -> cleanup c r = c.
-Proof. unfold cleanup. intros ->. reflexivity. Qed.
+Lemma cleanup_absent c r : alookup (refs c) r = None -> cleanup_entry c r = c.
+Proof. unfold cleanup_entry. intros ->. reflexivity. Qed.
 
 Lemma cleanup_spec c r w k :
   RefsOK c -> alookup (refs c) r = Some (w, k) ->
-  let c' := cleanup c r in
+  let c' := cleanup_entry c r in
   (forall x y, lookup2 c' x y = if (x =? w) && (y =? k) then None else lookup2 c x y) /\
   (forall x, alookup (refs c') x = if r =? x then None else alookup (refs c) x) /\
   (forall x, alookup (deps c') x = alookup (deps c) x \/ (x = w /\ alookup (widgets c') w = None)) /\
   (forall x, nodupkeys (sizes_of c' x)).
 Proof.
   intros [A B N] R. cbn zeta. pose proof (A _ _ _ R) as L.
-  unfold cleanup. rewrite R.
+  unfold cleanup_entry. rewrite R.
   unfold lookup2, sizes_of in L.
   destruct (alookup (widgets c) w) as [sizes|] eqn:W; [|cbn in L; discriminate].
   destruct sizes as [|e0 sizes0] eqn:S; [cbn in L; discriminate|]. rewrite <- S in *.
@@ -353,10 +353,10 @@ Qed.
 
 Lemma cleanup_widgets_none c r w k x :
   RefsOK c -> alookup (refs c) r = Some (w, k) -> x <> w ->
-  alookup (widgets (cleanup c r)) x = alookup (widgets c) x.
+  alookup (widgets (cleanup_entry c r)) x = alookup (widgets c) x.
 Proof.
   intros [A B N] R NE. pose proof (A _ _ _ R) as L.
-  unfold cleanup. rewrite R. unfold lookup2, sizes_of in L.
+  unfold cleanup_entry. rewrite R. unfold lookup2, sizes_of in L.
   destruct (alookup (widgets c) w) as [sizes|] eqn:W; [|cbn in L; discriminate].
   destruct sizes as [|e0 sizes0] eqn:S; [cbn in L; discriminate|]. rewrite <- S in *.
   destruct (aremove sizes k) as [|e1 rest] eqn:AR; cbn [widgets].
